@@ -26,6 +26,10 @@ type InternalConfig struct {
 	Handler
 	AcceptPool types.Pool
 	Metrics    metrics.Bytes
+	// ConnectTimeout is the configured connect timeout in seconds (0: none). The handler applies it
+	// to the CONNECT packet; a listener that has a handshake of its own before that (WebSocket)
+	// applies it to that handshake
+	ConnectTimeout int
 }
 
 type baseConfig struct {
